@@ -17,7 +17,9 @@ Import ListNotations.
 Definition c07_monitor_tags : list string :=
   ["C01:first_packet"; "C01:data_sequence"; "C02:lockstep"; "C02:timeout_at_deadline"; "C02:retransmission";
    (* retransmissions happen at the negotiated interval: never before the time-out, no delivery after it *)
-   "C02:resend_only_on_timeout"; "C02:delivery_after_deadline"]%string.
+   "C02:resend_only_on_timeout"; "C02:delivery_after_deadline";
+   (* block 1 follows only ACK 0: nothing is sent once the OACK's retries are exhausted *)
+   "C02:send_after_end"]%string.
 
 (* packets sent to the requesting client, in order *)
 Definition client_pkts (l : list tr) : list pkt :=
